@@ -67,7 +67,7 @@ impl<'tcx> Cx<'tcx> {
             if let Some(last) = sp.macro_backtrace().last() {
                 fields.push(("macro", js(&format!("{:?}", last.kind))));
                 if let Ok(snip) = sm.span_to_snippet(last.call_site) {
-                    if snip.len() < 400 {
+                    if snip.len() < 4000 {
                         fields.push(("snippet", js(&snip)));
                     }
                 }
